@@ -155,10 +155,11 @@ static void set_env (char **w, int n) {
 }
 
 /* client side of one transaction: optionally refuse to receive, write the request, collect the reply */
-struct client { int fd; unsigned char *req; long reqlen; int sendfail; unsigned char *rsp; long rsplen; long cut; };
+struct client { int fd; unsigned char *req; long reqlen; int sendfail; unsigned char *rsp; long rsplen; long cut; long stall; };
 static void *client_thread (void *arg) {
     struct client *c = arg; long off = 0, cap = 4096; ssize_t k;
     long towrite = (c->cut >= 0 && c->cut < c->reqlen) ? c->cut : c->reqlen;
+    if (c->stall >= 0 && c->stall < towrite) towrite = c->stall;   /* send a prefix, then neither send nor close: a stalled client */
     if (c->sendfail) shutdown (c->fd, SHUT_RD);
     while (off < towrite) {
         k = write (c->fd, c->req + off, towrite - off);
@@ -178,7 +179,7 @@ static void *client_thread (void *arg) {
 
 /* cred req <hex request bytes> [env k=v ...] [sendfail=1] [cut=N]  ->  rsp=<hex> leak=<0|1> */
 static void do_req (char **w, int n) {
-    int sv[2]; m_msg_t m; struct client c; pthread_t th; char *v; int leak;
+    int sv[2]; m_msg_t m; struct client c; pthread_t th; char *v; int leak; long stall_bad = -1;
     memset (&c, 0, sizeof c);
     c.reqlen = hx_parse (w[2], &c.req);
     if (c.reqlen < 0) { puts ("bad-op"); return; }
@@ -186,18 +187,29 @@ static void do_req (char **w, int n) {
     g_rnd_pos = 0;                                     /* the scripted PRNG stream restarts with every request */
     c.sendfail = (v = kv (w + 3, n - 3, "sendfail")) ? atoi (v) : 0;
     c.cut = (v = kv (w + 3, n - 3, "cut")) ? atol (v) : -1;
+    c.stall = (v = kv (w + 3, n - 3, "stall")) ? atol (v) : -1;
     if (socketpair (AF_UNIX, SOCK_STREAM, 0, sv) < 0) { puts ("bad-op"); return; }
     c.fd = sv[1];
     pthread_create (&th, NULL, client_thread, &c);
     if (m_msg_create (&m) != EMUNGE_SUCCESS || m_msg_bind (m, sv[0]) != EMUNGE_SUCCESS) abort ();
     fd_set_nonblocking (sv[0]);
-    _job_exec (m);                                     /* recv, process, send, destroy (closes sv[0]) */
+    {
+        struct timespec t0, t1; long ms;
+        clock_gettime (CLOCK_MONOTONIC, &t0);
+        _job_exec (m);                                 /* recv, process, send, destroy (closes sv[0]) */
+        clock_gettime (CLOCK_MONOTONIC, &t1);
+        ms = (t1.tv_sec - t0.tv_sec) * 1000 + (t1.tv_nsec - t0.tv_nsec) / 1000000;
+        /* a stalled client must be dropped after the I/O timeout: not at once, not (much) later */
+        if (c.stall >= 0 && (ms < MUNGE_SOCKET_TIMEOUT_MSECS - 200 || ms > MUNGE_SOCKET_TIMEOUT_MSECS + 3000))
+            stall_bad = ms;
+    }
     pthread_join (th, NULL);
     close (sv[1]);
     printf ("rsp="); hx_print (c.rsp, c.rsplen);
     free (c.req); free (c.rsp);
     leak = __lsan_do_recoverable_leak_check ();
-    printf (" leak=%d\n", leak ? 1 : 0);
+    if (stall_bad >= 0) printf (" leak=%d stalled-client-dropped-after-%ldms\n", leak ? 1 : 0, stall_bad);
+    else printf (" leak=%d\n", leak ? 1 : 0);
 }
 
 /* kernel translation validation: call the real static kernels on scripted inputs */
